@@ -39,6 +39,7 @@ partial def prog? : Sexp → Option Prog
   | .atom "spanevts" => some .spanEvent
   | .atom "spanevte" => some .spanEvent
   | .atom "spanevtp" => some .spanEvent
+  | .atom "spanevtx" => some .spanEvent
   | .list (.atom "span" :: cs) => (progs? cs).map Prog.span
   -- a span / pushed header whose scope is left by a PANIC (caught right outside): unwinding drops the guard inside
   -- the frame and exits the frame like a normal return, so the model is the same program (`restore_after`)
